@@ -1070,6 +1070,8 @@ class Interp:
             items = container if isinstance(container, tuple) else container.items
             return zor(*[self.equals(x, i) for i in items])
         if isinstance(container, SDict):
+            if isinstance(x, SObj):
+                return x in container.d          # heap objects are keys by identity
             if is_concrete(x):
                 try:
                     return x in container.d
